@@ -163,4 +163,22 @@ CHECKS = {
                 'arithmetic because CoqInterval cannot reify integration bounds containing literal zeros.',
         'technique': 'Coq proof (gather theorem by induction over special ranges) + exact vm_compute and CoqInterval correspondence',
     },
+    'C03': {
+        'text': 'Machine-checked proof (Properties/C03.v): for any number of outputs with any mix of the four error '
+                'models, the mechanistic block of the gradient (accumulated over all outputs through each output\'s own '
+                'predictions and output sensitivities) and every error-parameter slot are the partial derivatives of '
+                'the total score (is_derive); the score returned with the sensitivities is the plain score with the '
+                'same -inf cases; bottom-level and population coordinates of the hierarchical gradient follow the chain '
+                'rule through centred / non-centred Gaussian and log-normal transforms and covariate shifts; posteriors '
+                'add the prior\'s sensitivity (sum rule). Tied to /repo on every run in two certified stages: '
+                'LogLikelihood / LogPosterior.evaluateS1 vs ll_S1_spec (every entry), and HierarchicalLogLikelihood / '
+                'HierarchicalLogPosterior.evaluateS1 over compositions of all population kinds vs the assembled '
+                'specification gradient with chi\'s own individual gradients as upstream values. Score agreement and '
+                '"S1 succeeds wherever the plain value is finite" are checked directly.',
+        'note': 'Trusted: Coq kernel, stdlib, Coquelicot, CoqInterval, ' + STD_AXIOMS + '; hand-written models; '
+                'harness/popspec.py places the term derivatives at their flat positions (the placement is the '
+                'specification); pints priors are oracles (their own evaluateS1 is trusted); the truncated Gaussian '
+                'population gradient is covered by C05 theorems.',
+        'technique': 'Coq proof (Coquelicot is_derive, sums over outputs, chain rule) + two-stage CoqInterval-certified correspondence',
+    },
 }
